@@ -208,6 +208,9 @@ def canon(expr, rename=None):
 # E8 finite evaluation of closed expressions
 # ---------------------------------------------------------------------------
 
+import re as _re_mod
+
+
 class NotClosed(Exception):
     pass
 
@@ -370,6 +373,14 @@ def ev(e, env, funcs=None):
             if isinstance(seq, tuple):
                 return seq[0] if seq else ev(e.args[1], env, funcs)
             raise NotClosed('next')
+        if isinstance(e.func, ast.Attribute) and e.func.attr in ('group', 'groups', 'groupdict', 'start', 'end', 'span') and not e.keywords:
+            # result of a constant regex applied to a constant string (put into the environment by a rule's oracle)
+            try:
+                recv_x = ev(e.func.value, env, funcs)
+            except NotClosed:
+                recv_x = None
+            if isinstance(recv_x, _re_mod.Match):
+                return getattr(recv_x, e.func.attr)(*[ev(a, env, funcs) for a in e.args])
         if isinstance(e.func, ast.Name) and e.func.id in ('frozenset', 'set') and len(e.args) <= 1 and not e.keywords:
             return frozenset(ev(e.args[0], env, funcs)) if e.args else frozenset()
         if isinstance(e.func, ast.Attribute) and e.func.attr == 'get' and not e.keywords and 1 <= len(e.args) <= 2:
@@ -381,6 +392,7 @@ def ev(e, env, funcs=None):
                 return recv_d.get(*[ev(a, env, funcs) for a in e.args])
         if isinstance(e.func, ast.Name) and e.func.id in ('enumerate', 'zip') and not e.keywords:
             args = [ev(a, env, funcs) for a in e.args]
+            args = [tuple(a) if isinstance(a, list) else a for a in args]
             if all(isinstance(a, (tuple, str)) for a in args[:1]) and (e.func.id == 'zip' or len(args) <= 2):
                 if e.func.id == 'zip':
                     if all(isinstance(a, (tuple, str)) for a in args):
